@@ -112,12 +112,14 @@ def build(chain, source_kind="call", sink_kind="call", placement="top", layout="
         body.append(f"snk2('c', {var})  #K")
     elif sink_kind == "kwcallee":
         body.append(f"handle(payload={var}, mode=1)")
+    elif sink_kind == "kwcallee-cut":
+        body.append(f"handle(payload='c', mode={var})")        # the tainted value goes to the parameter that is NOT sunk
     header = SITES + (LIB if layout == "one" else "from lib import ident, second, Obj, Box, setg, getg\n")
     if source_kind == "helper-early":
         header += "def fetch_early(flag):\n    t = src()  #S\n    if flag:\n        return t\n    return 'c'\n"
     if source_kind == "helper-twice":
         header += "def fetch():\n    t = src()  #S\n    return t\n"
-    if sink_kind == "kwcallee":
+    if sink_kind in ("kwcallee", "kwcallee-cut"):
         header += "def handle(mode, payload):\n    snk(payload)  #K\n    return mode\n"
     entry = None
     if source_kind == "param":
@@ -146,6 +148,7 @@ def rules(source_kind, sink_kind, lang="python", extra_source=None, extra_sink=N
            "param": {"operation": "parameter_decl", "name": "req"}}[source_kind]
     snk = {"call": {"operation": "call_stmt", "name": "snk", "target": ["\\%arg" + str(sink_arg)], "vuln_type": "x"},
            "kwcallee": {"operation": "call_stmt", "name": "snk", "target": ["\\%arg" + str(sink_arg)], "vuln_type": "x"},
+           "kwcallee-cut": {"operation": "call_stmt", "name": "snk", "target": ["\\%arg" + str(sink_arg)], "vuln_type": "x"},
            "call-arg1": {"operation": "call_stmt", "name": "snk2", "target": ["\\%arg" + str(sink_arg)], "vuln_type": "x"},
            "method": {"operation": "object_call", "name": "db.execute", "target": ["\\%arg" + str(sink_arg)], "vuln_type": "x"}}[sink_kind]
     if extra_source:
